@@ -130,10 +130,7 @@ theorem fcbAux_concat (level : Nat) (acc pending s : Str) :
     (fcbAux level acc pending s).1 ++ (fcbAux level acc pending s).2 = acc ++ pending ++ s := by
   induction s generalizing level acc pending with
   | nil =>
-    simp only [fcbAux]
-    split
-    · rename_i h; simp [h]
-    · simp
+    simp only [fcbAux, List.append_nil]
   | cons c r ih =>
     simp only [fcbAux]
     split
